@@ -1,4 +1,3 @@
 package main
 
 func ruleR5(c *Ctx, id string) {}
-func ruleR1(c *Ctx, id string) {}
